@@ -285,6 +285,22 @@ impl<'tcx> Cx<'tcx> {
                 }
             }
             (ConstValue::Scalar(mir::interpret::Scalar::Ptr(ptr, _)), TyKind::Ref(_, inner, _)) => {
+                // reference to a static item: name it and dump its initializer if it is an array of scalars
+                let (prov0, off0) = ptr.into_raw_parts();
+                if let Some(mir::interpret::GlobalAlloc::Static(sdid)) = self.tcx.try_get_global_alloc(prov0.alloc_id()) {
+                    let _ = write!(s, ",\"static\":{}", esc(&self.path(sdid)));
+                    if let (TyKind::Array(e, n), Ok(alloc)) = (inner.kind(), self.tcx.eval_static_initializer(sdid)) {
+                        if let (TyKind::Uint(ty::UintTy::U8), Some(n)) = (e.kind(), n.try_to_target_usize(self.tcx)) {
+                            let a = alloc.inner();
+                            let o = off0.bytes() as usize;
+                            if (o as u64) + n <= a.size().bytes() {
+                                let b = a.inspect_with_uninit_and_ptr_outside_interpreter(o..o + n as usize).to_vec();
+                                self.bytes_json(s, &b, false);
+                            }
+                        }
+                    }
+                    return;
+                }
                 // &[u8; N] / &[T; N] of scalars
                 if let TyKind::Array(e, n) = inner.kind() {
                     if let Some(n) = n.try_to_target_usize(self.tcx) {
